@@ -3,6 +3,7 @@ package core
 import (
 	"errors"
 	"fmt"
+	"runtime/debug"
 	"sort"
 	"strings"
 	"time"
@@ -199,9 +200,17 @@ func (e *TaskExecutor) ExecuteTask(
 	traceCtx telemetry.TraceContext,
 	task *proto.Task,
 	stub *cachestub.BatchCacheStub,
-) (*proto.TxResponse, *proto.BatchTxEvent) {
+) (txResponse *proto.TxResponse, txEvent *proto.BatchTxEvent) {
 	traceCtx, span := e.TracingHandler.StartNewSpan(traceCtx, "TaskExecutor.ExecuteTasks")
 	defer span.End()
+
+	// a panic inside one task fails only that task, as in batchedTxExecute
+	defer func() {
+		if rc := recover(); rc != nil {
+			logger.Logger().Criticalf("Task %s panicked:\n%s", task.GetId(), string(debug.Stack()))
+			txResponse, txEvent = handleTaskError(span, task, fmt.Errorf("panic executing task %s: %v", task.GetId(), rc))
+		}
+	}()
 
 	log := logger.Logger()
 	start := time.Now()
